@@ -709,7 +709,11 @@ def _xr_reproject_ds(
             dv, how=dst_geobox, resampling=resampling, dst_nodata=dst_nodata, **kw
         )
 
-    return src.map(_maybe_reproject)
+    # NOTE: not Dataset.map(): depending on the xarray version it either wipes the attributes of the
+    # new coordinates (losing the CRS) or copies the source's ones over them (stale CRS).
+    return xarray.Dataset(
+        {name: _maybe_reproject(dv) for name, dv in src.data_vars.items()}
+    )
 
 
 def _xr_reproject_da(
